@@ -223,26 +223,50 @@ def scan_runs(ctx, L, table="_snd_buffer", unroll=1):
     from sa.sym import SymEval
     from .common import contradictory
     loop = None
+    host = L.job
     for n in ast.walk(L.job.node):
         if isinstance(n, ast.For) and any(isinstance(x, ast.Attribute) and x.attr == table for x in ast.walk(n.iter)):
             loop = n
             break
     if loop is None:
+        # the scan may have been moved into a private helper that only the job pass calls
+        from .common import is_helper, owners
+        for fn in ctx.prog.all_funcs():
+            if fn.cls is None or fn.cls.name != L.cls or not is_helper(fn) or owners(ctx, fn) != {L.job.qual}:
+                continue
+            for n in ast.walk(fn.node):
+                if isinstance(n, ast.For) and any(isinstance(x, ast.Attribute) and x.attr == table for x in ast.walk(n.iter)):
+                    loop, host = n, fn
+                    break
+            if loop is not None:
+                break
+    if loop is None:
         raise AnalysisError("anchor vanished: scan loop over %s in %s" % (table, L.job.qual))
-    ev = SymEval(ctx.prog, L.job)
+    ev = SymEval(ctx.prog, host)
     # statements before the loop at function level (next_wakeup = now + 5.0)
     for st in L.job.node.body:
         if st is loop:
             break
-        if isinstance(st, ast.Assign):
-            ev.step(st)
+        if isinstance(st, ast.Assign) and not (isinstance(st.value, ast.Call) and host is not L.job and
+                                               any(isinstance(x, ast.Attribute) and isinstance(x.value, ast.Name) and x.value.id == "self" for x in ast.walk(st.value.func))):
+            try:
+                ev.step(st)
+            except AnalysisError:
+                pass
+    if host is not L.job:
+        for st in host.node.body:
+            if st is loop:
+                break
+            if isinstance(st, ast.Assign):
+                ev.step(st)
     it = ev.expr(loop.iter)
     ev.uid += 1
     ev._bind_target(loop.target, ("iter", it, ev.uid))
-    rs = [r for r in runs_of(ctx.prog, L.job, unroll=unroll, body=loop.body, evalr=ev) if not contradictory(r) and r.term != "cut"]
+    rs = [r for r in runs_of(ctx.prog, host, unroll=unroll, body=loop.body, evalr=ev) if not contradictory(r) and r.term != "cut"]
     # (paths of `while True` loops that do not leave within the unrolling bound are cut: the scan rules are about what
     #  has happened when the iteration ends, which such a path prefix does not show)
     cache[key] = rs
+    ctx.__dict__.setdefault("_scan_host", {})[(L.cls, table)] = host
     return rs
 
 
